@@ -56,6 +56,19 @@ def main(run):
             return core.to_ferret(core.shrink(p, differs, max_tests=60))
         except Exception as e:
             return "(shrinking failed: %r)" % (e,)
+    # source-level corpus (features outside FerretCore: no reference leg): former disagreements, replayed first
+    cdir = os.path.join(common.VERIF, "corpus", "C02")
+    for fn in sorted(os.listdir(cdir)) if os.path.isdir(cdir) else []:
+        if not fn.endswith(".fer"): continue
+        src = open(os.path.join(cdir, fn)).read()
+        a = common.compile_and_run(src, work, "cn_" + fn[:-4], "native")
+        b = common.compile_and_run(src, work, "cw_" + fn[:-4], "wasm")
+        run.case(src, True)
+        run.count("corpus-source")
+        if not (a.get("accepted") and b.get("accepted")) or term_kind(a) != term_kind(b) or values(a.get("out") or "") != values(b.get("out") or ""):
+            run.violation("corpus:" + fn, "corpus program %s: native and wasm differ (or one target no longer builds it)" % fn,
+                          {"program": src, "native": {"accepted": a.get("accepted"), "rc": a.get("rc"), "stdout": a.get("out"), "stderr": (a.get("err") or "")[:400]},
+                           "wasm": {"accepted": b.get("accepted"), "rc": b.get("rc"), "stdout": b.get("out"), "stderr": (b.get("err") or "")[:400]}})
     nat = c01.compile_run_all(progs, work, "native", "n")
     was = c01.compile_run_all(progs, work, "wasm", "w")
     both = 0
